@@ -79,47 +79,78 @@ def genMap (args : List (String × MapVal)) : GM Unit := do
   | some b => set { st with r := { st.r with userBus := b } }
   | none => throw .runtime
 
-mutual
+/-- value of one macro argument at the call site -/
+inductive Bound
+  | int (v : Int)
+  | code (b : List Ast)
+  | deferred (e : PExpr)
 
-/-- `_code_gen(ast_nodes, resolver, macro_definitions)` -/
-def genList (env : Env) : Nat → List Ast → GM (List Node)
-  | 0, _ => throw .recursion
-  | _, [] => pure []
-  | fuel+1, a :: rest => do
-    let n1 ← gen env fuel a
-    let n2 ← genList env fuel rest
-    pure (n1 ++ n2)
+/-- the first loop of `generate_macro_application` (F09 repair): every argument is evaluated in the
+    caller's scope, before the macro scope exists; `SymbolNotDefined` defers the binding -/
+def bindArgs (env : Env) (r : Resolver) : List String → List MArg → Except Err (List (String × Bound))
+  | [], _ => .ok []
+  | _ :: _, [] => .error .index
+  | p :: ps, a :: as =>
+    match a with
+    | .block b _ =>
+      match bindArgs env r ps as with
+      | .error e => .error e
+      | .ok rest => .ok ((p, .code b) :: rest)
+    | .expr e =>
+      match evalP env r e with
+      | .ok v =>
+        (match bindArgs env r ps as with
+         | .error er => .error er
+         | .ok rest => .ok ((p, .int v) :: rest))
+      | .error (.symbolNotDefined _) =>
+        (match bindArgs env r ps as with
+         | .error er => .error er
+         | .ok rest => .ok ((p, .deferred e) :: rest))
+      | .error er => .error er
 
-/-- the body of the `for k in range(from, to)` loop of `generate_for`, `count` iterations starting at `k` -/
-def genFor (env : Env) : Nat → Nat → Int → String → List Ast → GM (List Node)
-  | 0, _, _, _, _ => throw .recursion
-  | _, 0, _, _, _ => pure []
-  | fuel+1, count+1, k, sym, body => do
-    modR fun r => r.appendScope .internal
-    gUseNext
-    let inner ← genList env fuel body
-    gRestore false
-    let rest ← genFor env fuel count (k + 1) sym body
-    pure (Node.scopeEnter :: Node.symbolConst sym k :: inner ++ Node.scopePop :: rest)
+/-- the second loop: bind the evaluated parameters in the (new) current scope -/
+def bindParams (r : Resolver) : List (String × Bound) → Resolver
+  | [] => r
+  | (p, .int v) :: rest => bindParams (r.addSymbol p v) rest
+  | (p, .code b) :: rest => bindParams (r.addCodeSymbol p b) rest
+  | (_, .deferred _) :: rest => bindParams r rest
 
-/-- one generator call (`generators[node.kind](…)`) -/
+/-- … and the `SymbolNode`s of the deferred ones -/
+def deferredNodes : List (String × Bound) → List Node
+  | [] => []
+  | (p, .deferred e) :: rest => Node.symbol p e :: deferredNodes rest
+  | _ :: rest => deferredNodes rest
+
+/-- generate a statement list with a generator for single statements -/
+def genListWith (g : Ast → GM (List Node)) (l : List Ast) : GM (List Node) := do
+  let parts ← l.mapM g
+  pure parts.flatten
+
+/-- one iteration of `.for`: a fresh internal scope, entered, that binds the variable and holds the body -/
+def iterationWith (g : Ast → GM (List Node)) (sym : String) (body : List Ast) (k : Int) : GM (List Node) := do
+  modR fun r => r.appendScope .internal
+  gUseNext
+  let inner ← genListWith g body
+  gRestore false
+  pure (Node.scopeEnter :: Node.symbolConst sym k :: inner ++ [Node.scopePop])
+
+/-- a scope-opening construct: append the scope, enter it, prepare it, generate the body, leave it -/
+def withScope (kind : ScopeKind) (prep : Resolver → Resolver) (pre : List Node) (body : GM (List Node)) : GM (List Node) := do
+  modR fun r => r.appendScope kind
+  gUseNext
+  modR prep
+  let inner ← body
+  gRestore false
+  pure (Node.scopeEnter :: pre ++ inner ++ [Node.scopePop])
+
+/-- one generator call (`generators[node.kind](…)`); the fuel bounds the nesting depth of the expansion -/
 def gen (env : Env) : Nat → Ast → GM (List Node)
   | 0, _ => throw .recursion
   | fuel+1, ast => do
     match ast with
-    | .block body _ => genList env fuel body
-    | .scope name body _ => do
-      modR fun r => r.appendScope (.named name)
-      gUseNext
-      let inner ← genList env fuel body
-      gRestore false
-      pure (Node.scopeEnter :: inner ++ [Node.scopePop])
-    | .compound body _ => do
-      modR fun r => r.appendScope .plain
-      gUseNext
-      let inner ← genList env fuel body
-      gRestore false
-      pure (Node.scopeEnter :: inner ++ [Node.scopePop])
+    | .block body _ => genListWith (gen env fuel) body
+    | .scope name body _ => withScope (.named name) id [] (genListWith (gen env fuel) body)
+    | .compound body _ => withScope .plain id [] (genListWith (gen env fuel) body)
     | .map args _ => do genMap args; pure []
     | .macro name params body _ => do
       modify fun st => { st with macros := ainsert name ⟨params, body⟩ st.macros }
@@ -127,35 +158,13 @@ def gen (env : Env) : Nat → Ast → GM (List Node)
     | .macroApply name args _ => do
       let st ← get
       let md ← liftOpt .key (alookup name st.macros)
-      -- arguments are evaluated at the call site, before the macro scope exists (F09 repair)
-      let bound ← (List.range md.params.length).mapM fun i =>
-        match args[i]? with
-        | none => (throw .index : GM (Option (Sum Int (List Ast))))
-        | some (MArg.block b _) => pure (some (Sum.inr b))
-        | some (MArg.expr e) => do
-          let st ← get
-          match evalP env st.r e with
-          | .ok v => pure (some (Sum.inl v))
-          | .error (.symbolNotDefined _) => pure none
-          | .error er => throw er
-      modR fun r => r.appendScope .plain
-      gUseNext
-      let mut deferred : List Node := []
-      for (p, i) in md.params.zip (List.range md.params.length) do
-        match bound[i]? with
-        | some (some (Sum.inl v)) => modR fun r => r.addSymbol p v
-        | some (some (Sum.inr b)) => modR fun r => r.addCodeSymbol p b
-        | _ =>
-          match args[i]? with
-          | some (MArg.expr e) => deferred := deferred ++ [Node.symbol p e]
-          | _ => pure ()
-      let inner ← genList env fuel md.body
-      gRestore false
-      pure (Node.scopeEnter :: deferred ++ inner ++ [Node.scopePop])
+      match bindArgs env st.r md.params args with
+      | .error er => throw er
+      | .ok bound => withScope .plain (fun r => bindParams r bound) (deferredNodes bound) (genListWith (gen env fuel) md.body)
     | .codeLookup name info => do
       let st ← get
       match st.r.valueFor name with
-      | .code body => genList env fuel body
+      | .code body => genListWith (gen env fuel) body
       | .int _ => throw (nodeErr "not-a-code-block" info)
       | .undefined => throw (.symbolNotDefined name)
     | .ifNode cond thenB elseB _ => do
@@ -165,14 +174,15 @@ def gen (env : Env) : Nat → Ast → GM (List Node)
         | .error .key => pure false
         | .error (.symbolNotDefined _) => pure false
         | .error er => throw er
-      if c then genList env fuel thenB
+      if c then genListWith (gen env fuel) thenB
       else match elseB with
-        | some eb => genList env fuel eb
+        | some eb => genListWith (gen env fuel) eb
         | none => pure []
     | .forNode sym lo hi body _ => do
       let a ← gEval env lo
       let b ← gEval env hi
-      genFor env fuel (b - a).toNat a sym body
+      let parts ← (List.range (b - a).toNat).mapM fun (j : Nat) => iterationWith (gen env fuel) sym body (a + (j : Nat))
+      pure parts.flatten
     | .atEq e info => pure [Node.reloc e info]
     | .starEq e info => pure [Node.codePos e info]
     | .table path _ => do
@@ -217,6 +227,8 @@ def gen (env : Env) : Nat → Ast → GM (List Node)
       | .error er => throw er
     | .struct _ _ => throw .runtime
 
-end
+/-- `_code_gen(ast_nodes, resolver, macro_definitions)` -/
+def genList (env : Env) (fuel : Nat) (l : List Ast) : GM (List Node) := genListWith (gen env fuel) l
+
 
 end A816
